@@ -280,6 +280,12 @@ def pairs(draw):
         d0 = ins[0]
         steps.append(dict(t='in', i=0, a=None if d0['kind'] == 'property' else 1, b=None if d0['kind'] == 'property' else 2,
                           usekw=False, beh='ret', ret=['ANCHOR'], name='n1', exc='Err'))
+    # calls whose argument is 0 / 1: the replayed program may ask with False / True / 0.0 / 1.0 instead, which are
+    # other calls (equal in Python, different values)
+    typed = [i for i, d in enumerate(ins) if d['kind'] != 'property' and d.get('capture', 'all') in ('all', 'pos1', 'pos1_name_b')]
+    if typed and draw(st.booleans()):
+        steps.append(dict(t='in', i=draw(st.sampled_from(typed)), a=draw(st.sampled_from([0, 1])), b=None, usekw=False,
+                          beh='ret', ret=['TYPED', draw(st.integers(0, 9))], name='n1', exc='Err'))
     P = PS.assign_sids(dict(klass=draw(st.sampled_from(['instance', 'class'])), ins=ins, outs=outs, steps=steps,
                             ending='return', result=None, extractor='none'))
     P = PS.normalise_inputs(P)
@@ -310,6 +316,9 @@ def pairs(draw):
             continue
         if action == 'change_a' and s['t'] == 'in':
             s['a'] = FRESH + [draw(st.integers(0, 2))]
+        if s['t'] == 'in' and type(s.get('a')) is int and s['a'] in (0, 1) and isinstance(s.get('ret'), list) and \
+                s['ret'][:1] == ['TYPED'] and draw(st.booleans()):
+            s['a'] = draw(st.sampled_from([bool(s['a']), float(s['a'])]))     # equal in Python, another value
         new_steps.append(s)
     for _ in range(draw(st.integers(0, 3))):
         pos = draw(st.integers(0, len(new_steps)))
